@@ -55,9 +55,10 @@ def make_units(tier):
                     elif n % 53 == 0:
                         bound = 2
                     K = 1 if bound == 1 else 16
-                    for k in range(K):
-                        units.append({'name': '%s+%s' % (A['kind'] + A['init'], B['kind'] + B['init']), 'inters': [A, B],
-                                      'flavour': flavour, 'fs': fs, 'bound': bound, 'shard': [k, K]})
+                    for pol in (('deliver-first', 'app-first-batch') if bound == 1 else ('deliver-first',)):
+                        for k in range(K):
+                            units.append({'name': '%s+%s' % (A['kind'] + A['init'], B['kind'] + B['init']), 'inters': [A, B],
+                                          'flavour': flavour, 'fs': fs, 'bound': bound, 'shard': [k, K], 'policy': pol})
                 if tier == 'thorough' and variant == 0:
                     for trip in itertools.combinations(range(len(items)), 3):
                         if sum(trip) % 7:
@@ -78,7 +79,7 @@ def bounds(tier):
 def scenario_of(unit):
     alts = ('all', 'chunk') if unit['flavour'] == 'tcp' else ('all',)
     return Mix([Inter.from_spec(_full(d)) for d in unit['inters']], unit['flavour'], unit['fs'], alts=alts,
-               modes=('Q', '0'), monitors_=('delivery',), name='mix')
+               modes=('Q', '0'), monitors_=('delivery',), name='mix', policy=unit.get('policy', 'deliver-first'))
 
 
 def _full(d):
